@@ -949,17 +949,21 @@ func (g *a4) wakeup() {
 	c, p := g.c, g.p
 	n := 0
 	for _, fn := range p.SrcFuncs() {
-		hasWait, hasBroadcast := false, false
-		for _, b := range fn.Blocks {
-			for _, in := range b.Instrs {
-				if ci, ok := in.(ssa.CallInstruction); ok {
-					if isMethodOf(ci.Common().StaticCallee(), "sync", "Cond", "Wait") {
-						hasWait = true
-					}
-					if isMethodOf(ci.Common().StaticCallee(), "sync", "Cond", "Broadcast") || isMethodOf(ci.Common().StaticCallee(), "sync", "Cond", "Signal") {
-						hasBroadcast = true
+		hasWait := len(callsTo(fn, "sync", "Cond", "Wait")) > 0
+		hasBroadcast := len(callsTo(fn, "sync", "Cond", "Broadcast"))+len(callsTo(fn, "sync", "Cond", "Signal")) > 0
+		// a helper method of the protocol (called by another method of the same receiver type that is
+		// checked with the helper looked through) is not a protocol function by itself
+		if hasWait || hasBroadcast {
+			helper := false
+			if nd := p.CallGraph().Nodes[fn]; nd != nil && fn.Signature.Recv() != nil {
+				for _, e := range nd.In {
+					if sameRecvHelper(e.Caller.Func, fn) {
+						helper = true
 					}
 				}
+			}
+			if helper {
+				continue
 			}
 		}
 		if hasWait {
@@ -984,12 +988,45 @@ type callSite struct {
 	ci  ssa.CallInstruction
 }
 
+// sameRecvHelper: callee is a method with the same receiver type as fn (a protocol split into
+// helper methods: waitFor -> reached / waitSlow, signal -> wakeAll).
+func sameRecvHelper(fn, callee *ssa.Function) bool {
+	if callee == nil || callee.Blocks == nil || callee == fn || fn.Signature.Recv() == nil || callee.Signature.Recv() == nil {
+		return false
+	}
+	return types.Identical(fn.Signature.Recv().Type(), callee.Signature.Recv().Type())
+}
+
+func containsCall(fn *ssa.Function, match func(*ssa.Function) bool, depth int) bool {
+	if depth > 2 {
+		return false
+	}
+	for _, b := range fn.Blocks {
+		for _, in := range b.Instrs {
+			if ci, ok := in.(ssa.CallInstruction); ok {
+				cal := ci.Common().StaticCallee()
+				if match(cal) {
+					return true
+				}
+				if sameRecvHelper(fn, cal) && containsCall(cal, match, depth+1) {
+					return true
+				}
+			}
+		}
+	}
+	return false
+}
+
 func callsTo(fn *ssa.Function, pkg, typ, name string) []callSite {
 	var out []callSite
+	match := func(c *ssa.Function) bool { return isMethodOf(c, pkg, typ, name) }
 	for _, b := range fn.Blocks {
 		for i, in := range b.Instrs {
-			if ci, ok := in.(ssa.CallInstruction); ok && isMethodOf(ci.Common().StaticCallee(), pkg, typ, name) {
-				out = append(out, callSite{b, i, ci})
+			if ci, ok := in.(ssa.CallInstruction); ok {
+				cal := ci.Common().StaticCallee()
+				if match(cal) || (sameRecvHelper(fn, cal) && containsCall(cal, match, 1)) {
+					out = append(out, callSite{b, i, ci})
+				}
 			}
 		}
 	}
@@ -1012,7 +1049,10 @@ func atomicCalls(fn *ssa.Function, name string) []callSite {
 				continue
 			}
 			callee := ci.Common().StaticCallee()
-			if callee != nil && callee.Pkg != nil && callee.Pkg.Pkg.Path() == "sync/atomic" && callee.Name() == name {
+			match := func(c *ssa.Function) bool {
+				return c != nil && c.Pkg != nil && c.Pkg.Pkg.Path() == "sync/atomic" && c.Name() == name
+			}
+			if match(callee) || (sameRecvHelper(fn, callee) && containsCall(callee, match, 1)) {
 				out = append(out, callSite{b, i, ci})
 			}
 		}
